@@ -273,8 +273,15 @@ def check_stream(case):
     maybe = [i for i in bad if case.faults[i][1].get('maybe_decodable')]
     may_deliver = [case.pieces[i] for i in range(n) if i in good or i in maybe]
     sink = io.StringIO()
+    lenient_first = int(case.key()[:2], 16) % 3 == 0
+    if lenient_first:
+        out.classes.append('lenient_decode_before_the_scan')
     for kind in ('plain', 'compiled'):
         dec = decoder(kind)
+        if lenient_first:
+            # the same decoder object was used in its documented lenient mode before (a retry on the damaged message, say):
+            # the scans below are as strict as ever
+            sut.call(dec.process, case.pieces[bad[0]], ignore_value_expectation=True)
         # full scan, continue on error: exactly the undamaged messages, unchanged
         with contextlib.redirect_stderr(sink):
             got, exc = run_scan(dec, case.stream, continue_on_error=True)
